@@ -29,7 +29,7 @@ def classify(line):
 
 
 CFG = dict(
-    imports=["From Verif.C02 Require Import Model Spec.", "From Verif.C01 Require Import Spec.", "Open Scope N_scope."],
+    imports=["From Verif.C02 Require Import Model Spec.", "From Verif.C01 Require Import Vxlan Spec.", "Open Scope N_scope."],
     checker="check_case",
     n=dict(quick=120, thorough=6000),
     shard=400,
